@@ -79,6 +79,7 @@ fn main() {
         "C06" => facets::c06::run(&opts),
         "C09" => facets::c09::run(&opts),
         "C19" => facets::c19::run(&opts),
+        "C13" => facets::c13::run(&opts),
         other => {
             eprintln!("unknown facet {}", other);
             std::process::exit(2)
